@@ -29,7 +29,7 @@ RULE = ('cases = T: expression-generator rules in text form over leaves of every
         'accept / early leaves reject first, alternating with the opposite, printing after every evaluation: the print must stay the first print, stay a '
         'fix-point of print-parse, and the rule parsed from the FIRST print must print and decide like the evaluated object; every rule of an S set is '
         'enforced in all worlds and the dump must be unchanged and still describe the living set; identical RuleDefaults must be and stay equal. Decisions are taken in 24 worlds (credentials x target) '
-        'chosen so that every leaf kind varies. Non-trivial = the decision vector is not constant; distinct = distinct rule value. Stratum `first-use`: in a fresh interpreter per schedule, two threads parse, print and decide one rule each (http / https / role / attribute leaves) as the very first use of the library, the first pre-empted at a sampled line boundary (lazy set-up such as the scan for plugin check kinds happens inside these calls): both must print and decide as when run one after the other, and the printed text parsed again afterwards must print and decide the same.')
+        'chosen so that every leaf kind varies. Non-trivial = the decision vector is not constant; distinct = distinct rule value. Stratum `print-overlap`: two threads print the same parsed rule and its rule set at the same time (second one at sampled line boundaries of the first, and both in flight). Stratum `first-use`: in a fresh interpreter per schedule, two threads parse, print and decide one rule each (http / https / role / attribute leaves) as the very first use of the library, the first pre-empted at a sampled line boundary (lazy set-up such as the scan for plugin check kinds happens inside these calls): both must print and decide as when run one after the other, and the printed text parsed again afterwards must print and decide the same.')
 ASSUMPTIONS = ['leaves contain no whitespace and, in list form, no leading ( or trailing ) - the tokenizer can never produce such a leaf from text',
                'a lone quoted string is not a rule of the language (C02 covers it)',
                'http(s) checks answer through a stub of requests.post whose answer depends on scheme and path: http://.../yes and https://.../sec -> True, anything else -> False']
@@ -38,7 +38,7 @@ LEVEL_TEXT = ('Seeded sampling of rules over all leaf kinds; each is printed and
               'with all leaf kinds and shapes is the level.')
 LEVEL_NOTE = 'trusted: the world set distinguishes rules only up to those 24 evaluations; a stub of requests.post as transport'
 PLAN = {'quick': dict(shards=4, wall=120), 'thorough': dict(shards=16, wall=400)}
-MIN = {'first_use_schedules': 16, 'first_use_schedules_inside_lazy_setup': 8, 'evaluations': 2000, 'reparsed_rules': 2000, 'rulesets_roundtripped': 100, 'eq_true_pairs': 50,
+MIN = {'overlapping_evaluations': 200, 'first_use_schedules': 16, 'first_use_schedules_inside_lazy_setup': 8, 'evaluations': 2000, 'reparsed_rules': 2000, 'rulesets_roundtripped': 100, 'eq_true_pairs': 50,
        'printed_forms_with_multiple_sources': 50, 'second_dumps': 50,
        'prints_after_evaluation': 10000, 'histories_with_or_alternatives': 150, 'dumps_after_enforcing': 100,
        'identical_ruledefaults_after_evaluation': 300}
@@ -508,6 +508,53 @@ def judge_first_use(ctx, case, base, got):
             return
 
 
+OVERLAPS = {'quick': 8, 'thorough': 120}
+
+
+def check_print_overlap(ctx, real, case):
+    """Two threads print the SAME parsed rule (and the rule set holding it) at the same time: each gets the text a single
+    thread gets, and that text still parses back to the same printed form."""
+    from oslo_policy import policy
+    from pv.mon import overlap
+    rules = policy.Rules.from_dict(dict(case['rules']))
+    name = sorted(case['rules'])[0]
+
+    def mk():
+        def make():
+            def run_():
+                try:
+                    return [str(rules[name]), str(rules)]
+                except Exception as e:
+                    return 'EXC:' + type(e).__name__
+            return run_
+        return make
+    alone = mk()()()
+    ctx.case(['print-overlap', case['rules']], True, 'print-overlap')
+    detail = {'rules': case['rules'], 'printed_by_one_thread': alone}
+    if overlap.pair(ctx, mk(), mk(), case, detail, ctx.sub_rnd('Ob', case['rseed']), limit=80, key='printed-form-depends-on-a-concurrent-print'):
+        if isinstance(alone, list):
+            again = str(policy.Rules.from_dict({name: alone[0]})[name])
+            if again != alone[0]:
+                ctx.violation('printed-form-not-a-fix-point', case, dict(detail, reparsed_prints=again))
+
+
+def run_print_overlap(ctx):
+    from pv.mon import sched
+    ctx.stratum('print-overlap', exhaustive=False)
+    try:
+        for i in range(OVERLAPS[ctx.tier]):
+            if ctx.expired():
+                break
+            r = ctx.sub_rnd('PO', ctx.tier, ctx.shard, i)
+            rules = {}
+            for j in range(r.randint(1, 3)):
+                ast = expr.random_ast(r, r.randint(1, 3), 4)
+                rules['p%d' % j] = expr.spell(expr.to_tokens(ast, lambda k: ('role:a', 'role:b', 'rule:h1', "'Member':%(role.name)s")[k]))
+            check_print_overlap(ctx, None, dict(print_overlap=True, rules=rules, rseed='%s.%d.%d' % (ctx.tier, ctx.shard, i)))
+    finally:
+        sched.uninstall()
+
+
 def run_first_use(ctx):
     from pv.mon import firstuse
     npairs = len(firstuse.PAIRS)
@@ -531,6 +578,9 @@ def run(ctx):
     ctx.count('distinct_printed_forms', len(PRINTED))
     ctx.stratum('random', exhaustive=False)
     ctx.release()
+    ctx.reserve(0.85)
+    run_print_overlap(ctx)
+    ctx.release()
     run_first_use(ctx)
 
 
@@ -538,6 +588,12 @@ def replay(ctx, case):
     if case.get('first_use'):
         from pv.mon import firstuse
         return firstuse.replay_one(ctx, case, judge_first_use)
+    if case.get('print_overlap'):
+        from pv.mon import sched
+        try:
+            return check_print_overlap(ctx, None, case)
+        finally:
+            sched.uninstall()
     real = Real()
     with mock.patch('requests.post', fake_post):
         check_case(ctx, real, case)
